@@ -1,8 +1,10 @@
 #!/usr/bin/env python3
 
 import logging
+import os
 import re
 import sys
+from contextlib import contextmanager
 from functools import cached_property
 from io import BytesIO
 from pathlib import Path
@@ -133,7 +135,7 @@ class FastaIndex:
             raise IndexUsageError(msg)
         if self.fai_file.exists():
             logging.warning(f"Overwriting FAI index file '{self.fai_file}'")
-        with self.fai_file.open("w") as idx_fh:
+        with self.atomic_write(self.fai_file) as idx_fh:
             for name, info in idx_dict.items():
                 idx_fh.write(info.fai_row(name))
 
@@ -150,8 +152,25 @@ class FastaIndex:
             raise IndexUsageError(msg)
         if self.agp_file.exists():
             logging.warning(f"Overwriting AGP assembly file '{self.agp_file}'")
-        with self.agp_file.open("w") as agp_fh:
+        with self.atomic_write(self.agp_file) as agp_fh:
             format_agp(asm, agp_fh)
+
+    @staticmethod
+    @contextmanager
+    def atomic_write(path: Path):
+        """
+        Write to a temporary file alongside `path` and rename it into place
+        once it is complete, so that an interrupted or concurrent indexing
+        run never leaves a partial file which looks like a valid index.
+        """
+        tmp = path.with_name(f"{path.name}.{os.getpid()}.tmp")
+        try:
+            with tmp.open("w") as fh:
+                yield fh
+            tmp.replace(path)
+        except BaseException:
+            tmp.unlink(missing_ok=True)
+            raise
 
     def run_indexing(self):
         idx_dict, assembly = index_fasta_file(self.fasta_file, self.buffer_size)
